@@ -9,6 +9,7 @@ package memnet
 import (
 	"fmt"
 	"io"
+	"runtime/debug"
 	"sync"
 	"sync/atomic"
 	"time"
@@ -140,7 +141,10 @@ type Net struct {
 	triggers  []*Trigger
 	dials     int
 	dialVT    []time.Time
-	closed    bool
+	// DialStacks holds the stack of every dial attempt when DebugDial is set (development aid).
+	DebugDial  bool
+	DialStacks []string
+	closed     bool
 }
 
 func New(clock *Clock) *Net {
@@ -229,6 +233,9 @@ func (n *Net) Dialer() transport.Dialer {
 		n.mu.Lock()
 		n.dials++
 		n.dialVT = append(n.dialVT, time.Now())
+		if n.DebugDial {
+			n.DialStacks = append(n.DialStacks, string(debug.Stack()))
+		}
 		dn := n.dials
 		delay := n.dialDelay
 		hook := n.dialHook
